@@ -51,7 +51,7 @@ pub fn run(cases: &[Vec<String>], detail: bool) {
     }
 }
 
-async fn run_case(case: Vec<String>, detail: bool) -> String {
+pub async fn run_case(case: Vec<String>, detail: bool) -> String {
     let kind = case[2].as_str();
     let reliable = case[3] == "1";
     let arrivals: Vec<(u64, u16, String)> = case[4]
@@ -83,6 +83,10 @@ async fn run_case(case: Vec<String>, detail: bool) -> String {
     // the first send takes this long (virtual ms): the transaction's clocks start when it has completed
     if let Some(lat) = case.get(9).and_then(|s| s.parse::<u64>().ok()) {
         mock.first_send_delay_ms.store(lat, std::sync::atomic::Ordering::SeqCst);
+    }
+    // the first send returns only this long after its bytes went out: responses can arrive while the caller is still inside send
+    if let Some(l) = case.get(10).and_then(|s| s.parse::<u64>().ok()) {
+        mock.first_send_linger_ms.store(l, std::sync::atomic::Ordering::SeqCst);
     }
     let tp = TpHandle::new(mock);
     let dest: SocketAddr = "10.9.9.9:5060".parse().unwrap();
